@@ -280,3 +280,35 @@ def tmp_private(ctx, rid):
                 ctx.ob(rid, f, 'tmp-private-to-final:' + c.name, ok, 'tmp path %s' % ('reads every parameter the final path reads' + (' (and a uniqueness source)' if uniq else '') if ok else
                        'does NOT depend on %s, which the final path does: the same tmp file serves several final files — concurrent writers overwrite each other\'s content before the rename' % missing), line=c.line)
     ctx.floor(rid, 'tmp + rename pairs', n, 15)
+
+
+def tmp_unique_in_workspace(ctx, rid, why, crates=('rip_workspace', 'rip_tools')):
+    """a temporary the harness creates INSIDE the user's workspace sits among the user's files."""
+    P = ctx.prog
+    ctx.rule(rid, 'a temporary created next to a workspace file cannot be a file of the user\'s: every "create tmp, rename tmp -> target" pair in rip-workspace / rip-tools builds the tmp name with a uniqueness source (uuid / pid / clock / random). A fixed sibling name (`notes.tmp` for `notes.txt`) may exist already — it is overwritten and renamed away although ' + why)
+    UNIQ = r'uuid::|process::id$|SystemTime::now|Instant::now|now_ms$|rand|fastrand|tempfile::'
+    n = 0
+    for p, f in sorted(P.fns.items()):
+        if f.crate not in crates:
+            continue
+        cs = f.calls(CREATE + r'|^std::fs::OpenOptions::open$|^tokio::fs::(write|File::create)$')
+        rn = f.calls(RENAME + r'|^tokio::fs::rename$')
+        if not cs or not rn:
+            continue
+        for c in cs:
+            pl = f.root_local(c.args[-1] if c.name == 'open' else c.args[0], through_calls=(r'::as_ref$', r'::deref$', r'::as_path$'))
+            for r in rn:
+                rp = f.root_local(r.args[0], through_calls=(r'::as_ref$', r'::deref$', r'::as_path$'))
+                if rp is None or rp != pl or not f.can_reach(c.bb, r.bb):
+                    continue
+                tmp_reads = reads_locals(f, c.args[-1] if c.name == 'open' else c.args[0])
+                # a temporary is a name the function INVENTS (with_extension / with_file_name / a formatted name); writing a
+                # patch-named file and then moving it (`Update File` + `Move to`) is not one
+                if not any(re.search(r'::(with_extension|with_file_name|with_added_extension|set_extension|set_file_name)$|^alloc::fmt::format$', s_.callee or '') for s_ in f.sites() if s_.dest and s_.dest['l'] in tmp_reads):
+                    continue
+                n += 1
+                ctx.touch(f)
+                uniq = any(re.search(UNIQ, s_.callee or '') for s_ in f.sites() if s_.dest and s_.dest['l'] in tmp_reads)
+                ctx.ob(rid, f, 'workspace-tmp-unique:' + c.name, uniq, 'the temporary `%s` %s' % (f.lname(pl) or '?', 'carries a uniqueness source' if uniq else
+                       'has a FIXED name derived from the target only: an existing file of that name in the user\'s workspace is clobbered and renamed away, outside the undo log and the checkpoint'), line=c.line)
+    return n
